@@ -111,7 +111,14 @@ def clusterseq (i : Info) (t : List Ev) : String :=
         let mold := (running cur).map fun (id, c, i) => (i, (id, c))
         let mstops := sortPairs ((r1.effects ++ r.effects).filterMap fun e => match e with
           | .stop i => (mold.find? (·.1 == i)).map (·.2) | _ => none)
+        -- a server that can become ready but missed the readiness deadline this time (a loaded machine): it was started and
+        -- stopped inside this window although it is not one of the never-ready ids; the retry by the second delivery is
+        -- then an extra start the model's fates do not know about - starts and stops of this update are not compared
+        let transient := window.any fun e => match e with
+          | .factory id _ inst => !(i.nr.contains id) && window.contains (.stopInv inst)
+          | _ => false
         if model != act then s!"differ@{k}:running {repr act} model {repr model}"
+        else if transient then go (k + 1) r.entries r.next (foLeft'.filter fun id => !failed2.contains id) rest
         else if ostops != mstops then s!"differ@{k}:stopped {repr ostops} model {repr mstops}"
         else if ostarts != mstarts then s!"differ@{k}:started {repr ostarts} model {repr mstarts}"
         else if cnt != r.entries.length then s!"differ@{k}:count {cnt} model {r.entries.length}"
